@@ -53,6 +53,8 @@ def run(ctx, rep):
         if all(ro for _, ro in cfg):
             cfg[0] = (cfg[0][0], False)
         h = U.gen_chistory(ctx.rng, cfg)
+        if n % 4 == 0:
+            h, cfg = U.directed_chistory(ctx.rng)
         d = U.cdrive(cpath, h, cfg)
         bcases.append(U.bcase_coq(d, cfg)); bmeta.append((h, cfg))
         rep.case(key="; ".join(d["ops"]) if any(r == "BOk" and o.startswith("CPut") for o, r in zip(d["ops"], d["results"])) else None,
